@@ -40,7 +40,8 @@ fn op_strategy() -> BoxedStrategy<Op> {
 		2 => (any::<u16>(), any::<u16>(), any::<u16>()).prop_map(|(w, payer, amount)| Op::IssueInvoice { w, payer, amount }),
 		3 => (any::<u16>(), args()).prop_map(|(s, args)| Op::PayInvoice { s, args }),
 		2 => any::<u16>().prop_map(|s| Op::FinalizeInvoice { s }),
-		1 => (any::<u16>(), any::<u16>()).prop_map(|(w, acct)| Op::SwitchAccount { w, acct }),
+		5 => (any::<u16>(), any::<u16>()).prop_map(|(w, acct)| Op::SwitchAccount { w, acct }),
+		5 => any::<u16>().prop_map(|s| Op::FinalizeTampered { s }),
 	]
 	.boxed()
 }
@@ -60,6 +61,10 @@ impl C03 {
 			base::build(&d, &BaseSpec::standard(v)).expect("base world");
 			bases.push(d);
 		}
+		// equal mining history in both accounts: per-account log ids collide
+		let d = args.scratch.join("c03.base2");
+		base::build(&d, &BaseSpec::balanced()).expect("base world");
+		bases.push(d);
 		C03 {
 			scratch: args.scratch.clone(),
 			bases,
@@ -175,12 +180,12 @@ impl Prop for C03 {
 	}
 	fn strategy(&self, tier: Tier) -> BoxedStrategy<Case> {
 		let n = tier.pick(16usize, 26usize);
-		(0u8..2, prop::collection::vec(op_strategy(), 4..n))
+		(0u8..3, prop::collection::vec(op_strategy(), 4..n))
 			.prop_map(|(base, ops)| Case { base, ops })
 			.boxed()
 	}
 	fn rule(&self) -> String {
-		"histories of 4..16 (thorough 26) ops over 2 wallets with several concurrent slates, protocol steps in ANY order incl. repeats (init, lock, deliver, finalize, post, cancel, invoice issue/pay/finalize, mine, refresh); after every step, per wallet: inputs (read from the stored transaction of each live TxSent entry) of distinct live outgoing transactions are disjoint, every such input is recorded Locked/Spent, at most one live TxSent / one TxReceived entry per slate and account; a repeated lock/deliver/finalize returns Err or leaves outputs+log+raw DB unchanged; non-trivial = two slates of one wallet simultaneously between init and confirmation, or a repeated step; distinct by case hash".into()
+		"histories of 4..16 (thorough 26) ops over 2 wallets with several concurrent slates, protocol steps in ANY order incl. repeats (init incl. late-locked, lock, deliver, finalize, finalize with a corrupted reply followed by the genuine one, post, cancel, invoice issue/pay/finalize, account switches on worlds where per-account log ids collide, mine, refresh); after every step, per wallet: inputs (read from the stored transaction of each live TxSent entry) of distinct live outgoing transactions are disjoint, every such input is recorded Locked/Spent, at most one live TxSent / one TxReceived entry per slate and account; a repeated lock/deliver/finalize returns Err or leaves outputs+log+raw DB unchanged; non-trivial = two slates of one wallet simultaneously between init and confirmation, or a repeated step; distinct by case hash".into()
 	}
 	fn assumptions(&self) -> Vec<String> {
 		vec!["two init_send_tx calls may select the same coins before either is locked (statement: 'once the wallet has reserved'); only a second reservation is flagged".into()]
@@ -212,6 +217,14 @@ impl C03 {
 			};
 			let r = sim.apply(op);
 			out.class(format!("op:{}:{}", r.kind, match &r.result { Some(Ok(_)) => "ok", Some(Err(_)) => "err", None => "noop" }));
+			if r.kind == "finalize-tampered" {
+				out.nontrivial = true;
+				if let Some(e) = r.err() {
+					if e.contains("tampered reply was accepted") {
+						out.fail("c03:tampered-reply-accepted", format!("{:?}: {}", op, e));
+					}
+				}
+			}
 			// repeated step: error, or no further effect
 			if r.kind.ends_with("-repeat") {
 				out.nontrivial = true;
